@@ -74,6 +74,11 @@ package pebbledb
 //@   noframe
 //@   include lockproto
 //@   include commitproto
+//@   include writeset
+//@   call (*github.com/cockroachdb/pebble.Batch).Commit assert [C06.stale] hasOldSig && oldSig.TopologyHash != sig.TopologyHash ==> topoKey(oldSig.TopologyHash, oldSig.ID) in deleted
+//@   call (*github.com/cockroachdb/pebble.Batch).Commit assert [C06.stale] hasOldSig && oldSig.FuzzyHash != sig.FuzzyHash && oldSig.FuzzyHash != "" ==> fuzzyKey(oldSig.FuzzyHash, oldSig.ID) in deleted
+//@   call (*github.com/cockroachdb/pebble.Batch).Commit assert [C06.stale] hasOldSig && oldSig.EntropyScore != sig.EntropyScore ==> entrKey(oldSig.EntropyScore, oldSig.ID) in deleted
+//@   call (*github.com/cockroachdb/pebble.Batch).Commit assert [C06.write] (sigKey(sig.ID) in written) && (topoKey(sig.TopologyHash, sig.ID) in written) && (entrKey(sig.EntropyScore, sig.ID) in written) && (sig.FuzzyHash != "" ==> fuzzyKey(sig.FuzzyHash, sig.ID) in written)
 
 //@ func (*PebbleScanner).AddSignatures
 //@   noframe
@@ -84,6 +89,8 @@ package pebbledb
 //@   noframe
 //@   include lockproto
 //@   include commitproto
+//@   include writeset
+//@   call (*github.com/cockroachdb/pebble.Batch).Commit assert [C06.delete] (sigKey(id) in deleted) && (topoKey(sig.TopologyHash, sig.ID) in deleted) && (entrKey(sig.EntropyScore, sig.ID) in deleted) && (sig.FuzzyHash != "" ==> fuzzyKey(sig.FuzzyHash, sig.ID) in deleted)
 
 //@ func (*PebbleScanner).SetAllMetadata
 //@   noframe
@@ -161,3 +168,50 @@ package pebbledb
 //@ func (*PebbleScanner).ScanTopologyWithSnapshot$2
 //@   requires 0 <= i && i < len(*results) && 0 <= j && j < len(*results)
 //@   ensures result == ((*results)[i].Confidence > (*results)[j].Confidence)
+
+// ---- C06: index keys, range bounds, and the write set of a mutation
+//@ pred topoKey(h string, id string) = "topo:" + h + ":" + id
+//@ pred fuzzyKey(h string, id string) = "fuzzy:" + h + ":" + id
+//@ pred entrKey(e float64, id string) = "entr:" + fmtPiece("%08.4f", e) + ":" + id
+//@ pred sigKey(id string) = "sig:" + id
+
+//@ func buildTopoIndexKey
+//@   ensures [C06.keys] bytesToString(result) == topoKey(topoHash, id)
+//@ func buildFuzzyIndexKey
+//@   ensures [C06.keys] bytesToString(result) == fuzzyKey(fuzzyHash, id)
+//@ func FormatEntropyKey
+//@   ensures [C06.keys] result == fmtPiece("%08.4f", entropy) + ":" + id
+//@ func buildEntropyIndexKey
+//@   ensures [C06.keys] bytesToString(result) == entrKey(entropy, id)
+// The master-record key is built with two appends over a package-level byte slice; its value is trusted.
+//@ func buildSignatureKey
+//@   trusted
+//@   ensures [C06.keys] bytesToString(result) == sigKey(id)
+
+// incrementLastByte(prefix) is the least byte string greater than every string with that prefix (nil if none).
+//@ func incrementLastByte
+//@   ensures [C06.bound] len(prefix) == 0 ==> sref(result) == 0
+//@   ensures [C06.bound] sref(result) != 0 ==> len(result) == len(prefix) && exists i in 0..len(prefix) :: prefix[i] < 255 && result[i] == prefix[i] + 1
+//@      && (forall j in 0..i :: result[j] == prefix[j]) && (forall j in i+1..len(prefix) :: prefix[j] == 255 && result[j] == 0)
+//@   ensures [C06.bound] sref(result) == 0 ==> forall j in 0..len(prefix) :: prefix[j] == 255
+//@   loop 1 invariant [C06.bound] 0 - 1 <= i && i < len(result) && len(result) == len(prefix) && fresh(result) && sref(result) != sref(prefix)
+//@   loop 1 invariant [C06.bound] (forall j in 0..i+1 :: result[j] == prefix[j]) && (forall j in i+1..len(prefix) :: prefix[j] == 255 && result[j] == 0)
+
+// A mutation deletes the index entries of the version it replaces and writes the record and its three index
+// entries, all in the batch it commits (ghost sets of written and deleted keys).
+//@ group writeset
+//@   ghost written set[string]
+//@   ghost deleted set[string]
+//@   call (*github.com/cockroachdb/pebble.Batch).Set update written = store(written, bytesToString(a1), true)
+//@   call (*github.com/cockroachdb/pebble.Batch).Delete update deleted = store(deleted, bytesToString(a1), true)
+//@ end
+
+// decodeSignature writes only through its destination pointer (trusted: its body is the gob/JSON decoders).
+//@ func decodeSignature
+//@   trusted
+//@   modifies sig
+
+//@ func encodeIndexValue
+
+//@ func generatePebbleRandomID
+//@   noframe
